@@ -263,12 +263,16 @@ class DtypeEnv(object):
                 out.append(Field(n, 'struct', 0, 1, sub=sub))
         return out
 
-    def _strlist(self, e):
+    def _strlist(self, e, depth=0):
+        if isinstance(e, ast.Name) and e.id in self.b and depth < 5:
+            return self._strlist(self.b[e.id], depth + 1)       # a named list of field names
         if isinstance(e, (ast.List, ast.Tuple)):
             return [const_str(x) if const_str(x) is not None else norm(x) for x in e.elts]
         raise AnalysisError('names list not literal: %s' % norm(e)[:60])
 
-    def _exprlist(self, e):
+    def _exprlist(self, e, depth=0):
+        if isinstance(e, ast.Name) and e.id in self.b and depth < 5:
+            return self._exprlist(self.b[e.id], depth + 1)
         if isinstance(e, (ast.List, ast.Tuple)):
             return list(e.elts)
         if isinstance(e, ast.Call) and isinstance(e.func, ast.Attribute) and e.func.attr == 'split' and const_str(e.func.value) is not None:
